@@ -29,7 +29,7 @@ def confined(codes, chunks):
     return c(codes, chunks)
 
 
-def build(vals, codes, req, sort, fill, min_count, func, engine, mode, label_kind):
+def build(vals, codes, req, sort, fill, min_count, func, engine, mode, label_kind, req_form="array", by_dask=False):
     n = len(vals)
     if len(codes) != n:
         return None
@@ -43,7 +43,9 @@ def build(vals, codes, req, sort, fill, min_count, func, engine, mode, label_kin
     if fill == "False" and func not in ("any", "all", "max", "min", "sum", "count", "nanfirst"):
         return None
     c = {"func": func, "vals": vals, "dtype": "f8", "codes": codes, "label_kind": kind, "req": req, "sort": sort, "fill": fill,
-         "min_count": min_count, "engine": engine, "ddof": 1 if func in redcase.VAR_FUNCS | redcase.STD_FUNCS else None}
+         "min_count": min_count, "engine": engine, "ddof": 1 if func in redcase.VAR_FUNCS | redcase.STD_FUNCS else None, "req_form": req_form}
+    if by_dask and (mode == "eager" or mode[0] in ("cohorts", "blockwise") or kind == "str"):
+        return None
     if mode != "eager":
         method, chunks_i = mode
         comps = gen.compositions(n)
@@ -52,7 +54,7 @@ def build(vals, codes, req, sort, fill, min_count, func, engine, mode, label_kin
             return None
         if method == "blockwise" and not confined(codes, chunks):
             return None
-        c.update(method=method, chunks=chunks)
+        c.update(method=method, chunks=chunks, by_dask=by_dask)
     return c
 
 
@@ -65,7 +67,7 @@ def run(ctx):
         codes = gen.all_codes(3, 3, True) if n == 3 else [c for c in gen.code_patterns(n)] + [[2] * n, [1, 2] * (n // 2) + [2] * (n % 2)]
         spaces.append(gen.Space(f"labels{n}", {"vals": VALSETS[n], "codes": codes, "req": REQS, "sort": [True, False], "fill": FILLS + [None],
                                                "min_count": MINCOUNTS, "func": FUNCS, "engine": [None, "numpy", "flox", "numbagg"], "mode": modes,
-                                               "label_kind": ["int", "str", "float"]}, build))
+                                               "label_kind": ["int", "str", "float"], "req_form": ["array", "index", "list"], "by_dask": [False, False, True]}, build))
     # many requested labels at once (float / string levels), unrequested labels repeated in between
     def build_wide(codes, nreq, kind, func, fill, mode, sort):
         req = list(range(0, 2 * nreq, 2))
